@@ -556,7 +556,8 @@ func (streamSetSelf *StreamSetDef[T, R]) Intersection(input *StreamSetDef[T, R])
 // MinusStreams Minus the Stream values by their keys(keys will not be changed but Stream values will)
 func (streamSetSelf *StreamSetDef[T, R]) MinusStreams(input *StreamSetDef[T, R]) *StreamSetDef[T, R] {
 	if input == nil || input.Size() == 0 {
-		return NewStreamSet[T, R]()
+		// Nothing to subtract: keys and Stream values stay as they are
+		return streamSetSelf.Clone()
 	}
 
 	result := streamSetSelf.Clone()
